@@ -27,7 +27,10 @@ class Check(HCheck):
         long1 = A + L.long_stem(149)
         ops = R.rich_ops() + [al.page(long1), al.links((long1, Ax))]
         d = 3 if thorough else 2
+        forget = [("reopen_forget",), al.REOPEN, al.rule(Ax, "path2"), al.unrule(A), al.page(Axy), al.page(Ab, True), al.create(Ax), al.clear("domain", {Ab: "path1"})]
         return [
+            # states in which the trie carries rule flags the object holds no pattern for
+            Space(Cfg("domain", {A: "path1"}), forget, 4 if thorough else 3, roots=[al.R0, al.R1], name="ro/file/rules-not-resupplied"),
             Space(Cfg("domain", {A: "path1"}), ops, d, roots=[al.R0, al.R1, al.R2, al.R4], name="ro/file/domain+path1"),
             Space(Cfg("never"), ops, d, roots=[al.R0, al.R3()], name="ro/file/never"),
             Space(Cfg("domain", {A: "path1"}, backend="memory"), ops, d, roots=[al.R0, al.R2], name="ro/memory/domain+path1"),
